@@ -110,12 +110,12 @@ def _payload_problem(pl):
     return ""
 
 
-def rest_protocol(tps, poll_ticks, c0, c1, c2, c3, c4, k0, k1, s1, s2, d0, d1, pools=2, K=8, want=""):
+def rest_protocol(tps, poll_ticks, c0, c1, c2, c3, c4, k0, k1, s1, s2, d0, d1, pools=2, K=8, alloc=2.5, want=""):
     reset_globals()
     real_requests = rest_mod.requests
     real_time = rest_mod.time
     rest_mod.time = _Clock()       # wall-clock timing statistics of the bridge are not part of the property
-    server = StubServer([c0, c1, c2, c3, c4], [k0, k1, 0, 0, 0], [s1, s2], 2.5)      # fractional sizes are admissible decisions
+    server = StubServer([c0, c1, c2, c3, c4], [k0, k1, 0, 0, 0], [s1, s2], alloc)    # fractional sizes are admissible decisions; large ones make a write-out last several ticks
     rest_mod.requests = server
     seen = set()
     try:
